@@ -1,15 +1,22 @@
 (* C04 — Lines fit the width, are greedily filled, and truncation is honoured.  Property theorems only.
-   Proved: soundness of the fit classification, the truncation bookkeeping of postProcessLine, and truncation_lines: with
-   TruncateAfterLines = k >= 1 at most k lines are returned (any number of WrapNextLine calls with any widths, and
-   WrapParagraph).  The greedy clause is FALSE of the faithful model (Findings/Wrap.v: f7_refuted) and the width clause is
-   false on the truncated line (f8_width_refuted).
-   NOT proved (oracle check_width_truncation only): the global width_bound.  What is missing: (1) an invariant through
-   both loops recording, for the best line, the classification it was recorded under (fits / endLine: measured width <=
-   maxWidth by candidate_classification_sound_partial; cannotFit: single unbreakable unit; truncated: finding F8), and
-   (2) the relation between the width measured at candidate time (advanceSpaceAware + the Advance fields of the runs already
-   collected) and Spec/Wrap.v line_measure on the returned store, which fails through aliasing (F6: stale Advance of whole
-   runs, glyphs trimmed by later candidates) and through F7/F37 (fallback skipping options). *)
-From TV Require Import Model.Wrap Spec.Wrap Proofs.Wrap Proofs.WrapLines Proofs.WrapTrunc.
+   Proved: soundness of the fit classification, the truncation bookkeeping of postProcessLine, truncation_lines (with
+   TruncateAfterLines = k >= 1 at most k lines are returned, any number of WrapNextLine calls with any widths, and
+   WrapParagraph), and width_bound_partial (Proofs/WrapWidth.v): for every WrapNextLine call from a state reached by
+   Prepare + any calls, whose entry store has non-negative advances / letter spacing (the property's sign hypothesis) and
+   input runs with Advance = sum of their glyph advances (excludes F6), the returned line measured by Spec/Wrap.v
+   line_measure ON THE RETURNED STORE is within maxWidth (within maxWidth - ceil(truncator advance) when the truncator was
+   appended), or the line holds no UAX #14 opportunity at a cluster boundary strictly inside (recorded under cannotFit), or
+   it is the whole-run prefix recorded on the truncated line (F8 pattern: text ends at the boundary between two input runs).
+   The greedy clause is FALSE of the faithful model (Findings/Wrap.v: f7_refuted) and the width clause is false on the
+   truncated line (f8_width_refuted).
+   What keeps width_bound "_partial": (1) hypothesis adv_consistent on the call's entry store (F6; same guard as Check/C04.v);
+   (2) hypothesis WI (Proofs/WrapWidth.v): the UAX #14 iterator has not consumed a valid line boundary beyond the line start
+   — true after Prepare (WI_prepare) and broken exactly by the dropped candidate of F37; its preservation by calls that
+   return a non-nil line is not proved; (3) the F8 disjunct on the truncated line; (4) for policies other than Never the
+   proved exception is "no valid UAX #14 opportunity strictly inside the line", weaker than the property's "single grapheme
+   cluster" — the gap is the grapheme iterator's skipping rule (F7).  Under Never the exception is exactly the property's.
+   NOT proved: greedy_partial. *)
+From TV Require Import Model.Wrap Spec.Wrap Proofs.Wrap Proofs.WrapLines Proofs.WrapTrunc Proofs.WrapWidth.
 
 (* Whenever processBreakOption classifies a candidate, the classification agrees with the measured width
    (advanceSpaceAware of the candidate + advance of the runs already on the line, rounded up): fits / endLine
@@ -66,3 +73,64 @@ Example truncation_lines_example :
   runs_ok runs 3 /\ 1 <= c_trunc cfg
   /\ exists w' ls, wrap_paragraph (w_zero st) cfg 1 [4; 5; 5; 7] runs = Ok (w', ls, 1) /\ zlen ls = 2.
 Proof. split; [split; [reflexivity|repeat constructor]|]. split; [cbn; lia|]. vm_compute. eexists _, _. split; reflexivity. Qed.
+
+(* ---- width_bound (Proofs/WrapWidth.v) ----------------------------------------------------------------------------- *)
+
+(* width_bound (partial): Prepare on well-formed runs, ANY sequence of WrapNextLine calls with any widths reaching a live
+   state wk, then one more call with maxWidth mw that returns a non-nil line.  Hypotheses on the entry state of that call:
+   the truncator's glyph array lies after the runs' arrays; nonneg_adv (sign hypothesis of the property); adv_consistent
+   (input runs still carry Advance = sum: excludes the aliasing of F6, as the oracle does); WI (no valid UAX #14 boundary
+   beyond the line start was consumed: holds after Prepare, broken by the nil line of F37).  Conclusion
+   (width_bound_stmt), with m = ceil(line_measure on the RETURNED store), s = line start, e = NextLine:
+   * truncator appended:  s = e (no text)  or  m <= mw - ceil(truncator advance)  or  e is the boundary between two input
+     runs strictly inside the text (run_boundary_inside = Check/C03.v interior_run_boundary: the F8 pattern);
+   * otherwise:  m <= mw  or  no position strictly inside (s, e) is a UAX #14 opportunity at a cluster boundary of every
+     run (under policy Never this is exactly "single unbreakable unit": Spec/Wrap.v single_unit). *)
+Theorem width_bound_partial : forall n w cfg attrs runs widths wk rs mw w' wl d line,
+  wf_runs (w_st w) runs n = true -> zlen attrs - 1 = n -> 1 <= n ->
+  run_calls (prepare w cfg attrs runs 0 0) widths = Ok (wk, rs) -> w_more wk = true ->
+  zlen runs <= o_src (c_truncator (w_cfg wk)) ->
+  nonneg_adv (w_st wk) = true -> adv_consistent (w_st wk) runs = true -> WI attrs wk ->
+  wrap_next_line wk mw = Ok (w', wl, d) -> wl_line wl = Some line ->
+  width_bound_stmt attrs n runs (w_st wk) (w_st w') (o_src (c_truncator (w_cfg wk))) (c_dir (w_cfg wk))
+                   (o_adv (c_truncator (w_cfg wk))) (w_start wk) (wl_next wl) mw line.
+Proof. exact width_bound_calls. Qed.
+Print Assumptions width_bound_partial.
+
+(* the width measured for a candidate bounds the declarative measure of the candidate line on the same store, whenever
+   the recorded advance of the collected runs bounds the sum of their glyph advances (WA, kept by processBreakOption:
+   Proofs/WrapWidth.v pbo_W) *)
+Theorem candidate_width_bounds_measure : forall w cand,
+  WA w -> o_adv cand = sum_adv (out_glyphs (w_st w) cand) ->
+  ceil26 (lmeas (w_st w) (c_dir (w_cfg w)) (s_alt (w_sc w) ++ [cand])) <= cand_width w cand.
+Proof. exact cand_meas. Qed.
+Print Assumptions candidate_width_bounds_measure.
+
+(* under BreakPolicy Never (policy 1) the exception disjunct of width_bound_stmt is exactly the property's "single unbreakable
+   unit" as the oracle evaluates it (Spec/Wrap.v single_unit used by check_width_truncation) *)
+Theorem width_exception_is_single_unit_never : forall attrs st rs n s e, e <= n ->
+  (forall p, s < p < e -> line_boundary attrs p = true -> cluster_boundary st rs p = true -> False) ->
+  single_unit attrs st rs n 1 s e = true.
+Proof. exact never_single_unit. Qed.
+Print Assumptions width_exception_is_single_unit_never.
+
+(* non-vacuity: "a SP b" + "c" (the space has zero Width): every hypothesis holds on the first call; at maxWidth 1 the line
+   [0,2) = "a SP" is returned and measures 1 (the trailing space is not counted); at maxWidth 0 the line [0,1) measures
+   1 > 0 and is the exception (nothing breakable strictly inside) *)
+Example width_bound_example :
+  let st := [[mkGlyph 0 1 1 64 64 0 0 0; mkGlyph 1 1 1 64 0 0 0 0; mkGlyph 2 1 1 64 64 0 0 0]; [mkGlyph 3 1 1 64 64 0 0 0]; []] in
+  let runs := [mkOut 192 0 0 3 0 0 3 0; mkOut 64 0 3 1 1 0 1 0] in
+  let cfg := mkCfg 0 0 (mkOut 0 0 0 0 2 0 0 0) false 0 false in
+  let attrs := [4; 4; 5; 4; 7] in
+  let wk := prepare (w_zero st) cfg attrs runs 0 0 in
+  wf_runs st runs 4 = true /\ nonneg_adv st = true /\ adv_consistent st runs = true /\ zlen runs <= 2 /\ WI attrs wk
+  /\ run_calls wk [] = Ok (wk, []) /\ w_more wk = true
+  /\ (exists w' l, wrap_next_line wk 1 = Ok (w', mkWrapped (Some l) 0 2, false) /\ has_truncator 2 l = false
+         /\ ceil26 (line_measure (w_st w') 2 0 l) = 1)
+  /\ (exists w' l, wrap_next_line wk 0 = Ok (w', mkWrapped (Some l) 0 1, false) /\ has_truncator 2 l = false
+         /\ ceil26 (line_measure (w_st w') 2 0 l) = 1).
+Proof.
+  cbv zeta. split; [vm_compute; reflexivity|]. split; [vm_compute; reflexivity|]. split; [vm_compute; reflexivity|].
+  split; [vm_compute; discriminate|]. split; [apply WI_prepare|]. split; [reflexivity|]. split; [reflexivity|].
+  split; vm_compute; eexists _, _; repeat split; reflexivity.
+Qed.
